@@ -90,6 +90,42 @@ def drive(ctx, fmt, n_cases, precisions, hostile=True, fixture_precisions=(), ke
                               {"case": i})
             finally:
                 ctx.case_wit = None
+        if i % 4 == 0:
+            # a write that FAILS half-way (the target directory does not exist yet: the document is built, the file cannot be
+            # opened), the user creates the directory and calls the SAME writer again: the second file is judged like any other
+            ctx.case_wit = {"case": i, "fmt": fmt, "route": "retry-after-failed-write"}
+            try:
+                from commonroad.common.file_writer import CommonRoadFileWriter, OverwriteExistingFile
+                from commonroad.common.util import FileFormat
+                import contextlib
+                import io as _io
+                import shutil
+                w = CommonRoadFileWriter(sc, pps, author=sc.author or "a", affiliation=sc.affiliation or "b",
+                                         source=sc.source or "c", tags=sc.tags, decimal_precision=ps[0],
+                                         file_format=FileFormat.XML if fmt == "xml" else FileFormat.PROTOBUF)
+                base = io.tmpfile(".dir")
+                pth = os.path.join(base, "out.%s" % ("xml" if fmt == "xml" else "pb"))
+                meth = ("write_to_file", "write_scenario_to_file")[(i // 4) % 2]
+                failed = False
+                try:
+                    with contextlib.redirect_stdout(_io.StringIO()):
+                        getattr(w, meth)(pth, OverwriteExistingFile.ALWAYS)
+                except OSError:
+                    failed = True
+                if failed:
+                    ctx.feature("retry-after-failed-write")
+                    os.makedirs(base)
+                    try:
+                        ctx.evaluation()
+                        with contextlib.redirect_stdout(_io.StringIO()):
+                            w.write_to_file(pth, OverwriteExistingFile.ALWAYS)
+                    finally:
+                        shutil.rmtree(base, ignore_errors=True)
+            except Exception as e:  # noqa
+                ctx.violation("%s/write/raises-%s/retry-after-failed-write" % (prop, type(e).__name__), repr(e)[:300],
+                              {"case": i})
+            finally:
+                ctx.case_wit = None
         if i % 4 == 2 and fmt == "xml":
             # two writers of different decimal precision exist side by side; the coarse one writes first, then the fine one
             # (no writer is constructed in between): each file has the precision of ITS writer
